@@ -38,7 +38,9 @@ func init() {
 		Rule: "one state = one feasible path through the real entry-point glue (validate.go, process_input.go, normalizer.go, report.go) for one entry point and one assignment of the symbolic fault flags; all paths are distinct",
 		Harnesses: func(tier string) []HarnessSpec {
 			return []HarnessSpec{{Pkg: "internal/validator", Fn: "VerifC04Entry", Native: "VerifC04EntryNative", Reach: []string{"decode-failed", "flatten-failed", "ok-path"},
-				Bounds: map[string]any{"entry_points": 4, "fault_flags": "decode, flatten, compile, eval error, empty result"}}}
+				Bounds: map[string]any{"entry_points": 4, "fault_flags": "decode, flatten (typed error | plain error | panic | empty graph), compile, eval error, empty result; the failing text submitted twice"}},
+				// the command line is an entry point too: a failed validation must not end with status 0
+				{Pkg: "cmd/commands", Fn: "VerifC18Validate", Native: "VerifC18ValidateNative", Reach: []string{"lib-failed"}, Bounds: map[string]any{"library_failure": "any error value | io.ErrUnexpectedEOF (truncated data) | io.EOF (empty data)"}}}
 		},
 		Assumptions: append([]string{"which byte strings make encoding/json or json-gold fail is their business: the fault is a symbolic flag; native replay uses the witnesses `#%RAML…` (not JSON) and {\"@context\": 42} (rejected by JSON-LD)"}, stubAssume...),
 		TrustedBase: []string{stdTrusted, "stubs in gosym/stubs.go"},
@@ -258,7 +260,8 @@ func init() {
 		Rule: "one state = one feasible path: (a) one structured mutation (line x replacement, or deletion) of a feature-complete profile, or a degenerate document, through the real parser and generator; (b) one shape of a flattened graph within the JSON-LD processor's contract through Index and the report builder; (c) one result-set shape through BuildReport",
 		Harnesses: func(tier string) []HarnessSpec {
 			return []HarnessSpec{
-				{Pkg: "internal/validator", Fn: "VerifC17Profile", Reach: []string{"returned"}, Bounds: map[string]any{"mutations": "61 lines x 11 operators", "degenerate_documents": 15}},
+				{Pkg: "internal/validator", Fn: "VerifC17Profile", Reach: []string{"returned"}, Bounds: map[string]any{"mutations": "61 lines x 11 operators", "degenerate_documents": 20}},
+				{Pkg: "pkg", Fn: "VerifC17WithChannel", Native: "VerifC17WithChannelNative", Reach: []string{"returned"}, Bounds: map[string]any{"entry_points": 5, "profiles": 5, "stage_outcomes": "every stage may fail (solver-chosen fault flags), event channel attached"}},
 				{Pkg: "internal/validator", Fn: "VerifC17Data", Native: "VerifC17DataNative", Reach: []string{"returned", "empty-graph"}, Bounds: map[string]any{"graph_shapes": "type forms x lexical/source-information layouts (one part varies per path)"}},
 				{Pkg: "internal/validator", Fn: "VerifC17EvalResult", Native: "VerifC17EvalResultNative", Reach: []string{"returned"}, Bounds: map[string]any{"result_shapes": 6}},
 			}
